@@ -468,7 +468,8 @@ pub fn reply_frame(id: SeqId, r: &Reply) -> Vec<u8> {
                 rc::print_text_block(m % 4, &[format!("block {m}").into_bytes(), b"second line".to_vec()])
             }
         }
-        CF_SET_TIME => rc::set_time_and_date(230_000 + m as u64 % 100, 120_000 + m as u64 % 60),
+        // (a real calendar date and time of day: a decoder that validates them is within its rights)
+        CF_SET_TIME => rc::set_time_and_date(230_100 + 1 + m as u64 % 28, 120_000 + m as u64 % 60),
         CF_REQUEST_DATA => rc::request_for_data(Some(0x13), Some(m as u32), true, true),
         CF_COMPLETION => match id {
             SeqId::GetSystemInfo => {
@@ -710,13 +711,29 @@ pub async fn drive(
     max_items: usize,
 ) {
     use SeqId::*;
-    let bmp = || {
-        Some(packets::tlv::PreAuthData {
-            bmp_data: Some(packets::tlv::Bmp60 {
-                bmp_prefix: "AC".to_string(),
-                bmp_data: p.token.clone(),
-            }),
-        })
+    // Inputs are built without exhaustive struct literals (a command type that gains an optional
+    // field must not stop the harness from compiling): the value the library decodes from the
+    // reference encoding of the command, with every field the harness knows about then *assigned*
+    // from the plan - so what goes out still does not depend on the decoder for those fields.
+    fn from_ref<T>(id: SeqId, p: &InParams) -> T
+    where
+        T: ZvtSerializer,
+        zvt::encoding::Default: zvt::encoding::Encoding<T>,
+    {
+        let frame = ref_command(id, p).encode();
+        match T::zvt_deserialize(&frame) {
+            Ok((v, _)) => v,
+            Err(e) => {
+                eprintln!("HARNESS ERROR: the library does not decode the reference encoding {} of its own command {:?}: {:?}", crate::conn::hex(&frame), id, e);
+                std::process::exit(2)
+            }
+        }
+    }
+    let bmp60 = |b: &mut Option<packets::tlv::Bmp60>| {
+        if let Some(b) = b.as_mut() {
+            b.bmp_prefix = "AC".to_string();
+            b.bmp_data = p.token.clone();
+        }
     };
     macro_rules! go {
         ($seq:ty, $input:expr) => {{
@@ -726,67 +743,60 @@ pub async fn drive(
         }};
     }
     match id {
-        Registration => go!(
-            sequences::Registration,
-            packets::Registration {
-                password: p.password as usize,
-                config_byte: p.byte,
-                currency: Some(p.currency as usize),
-                tlv: None,
+        Registration => go!(sequences::Registration, {
+            let mut v: packets::Registration = from_ref(id, p);
+            v.password = p.password as usize;
+            v.config_byte = p.byte;
+            v.currency = Some(p.currency as usize);
+            v.tlv = None;
+            v
+        }),
+        ReadCard => go!(sequences::ReadCard, {
+            let mut v: packets::ReadCard = from_ref(id, p);
+            v.timeout_sec = p.byte;
+            v.card_type = Some(0x10);
+            v.dialog_control = Some(2);
+            if let Some(t) = v.tlv.as_mut() {
+                t.card_reading_control = Some(0xd0);
+                t.card_type = Some(7);
             }
-        ),
-        ReadCard => go!(
-            sequences::ReadCard,
-            packets::ReadCard {
-                timeout_sec: p.byte,
-                card_type: Some(0x10),
-                dialog_control: Some(2),
-                tlv: Some(packets::tlv::ReadCard {
-                    card_reading_control: Some(0xd0),
-                    card_type: Some(7),
-                }),
+            v
+        }),
+        Initialization => go!(sequences::Initialization, {
+            let mut v: packets::Initialization = from_ref(id, p);
+            v.password = p.password as usize;
+            v
+        }),
+        SetTerminalId => go!(sequences::SetTerminalId, {
+            let mut v: packets::SetTerminalId = from_ref(id, p);
+            v.password = p.password as usize;
+            v.terminal_id = Some(p.terminal_id as usize);
+            v
+        }),
+        ResetTerminal => go!(sequences::ResetTerminal, from_ref::<packets::ResetTerminal>(id, p)),
+        Diagnosis => go!(sequences::Diagnosis, {
+            let mut v: packets::Diagnosis = from_ref(id, p);
+            if let Some(t) = v.tlv.as_mut() {
+                t.diagnosis_type = Some(p.byte % 5 + 1);
             }
-        ),
-        Initialization => go!(
-            sequences::Initialization,
-            packets::Initialization {
-                password: p.password as usize
+            v
+        }),
+        EndOfDay => go!(sequences::EndOfDay, {
+            let mut v: packets::EndOfDay = from_ref(id, p);
+            v.password = p.password as usize;
+            v
+        }),
+        Authorization => go!(sequences::Authorization, {
+            let dec: packets::Authorization = from_ref(id, p);
+            let mut tlv = dec.tlv;
+            if let Some(t) = tlv.as_mut() {
+                bmp60(&mut t.bmp_data);
             }
-        ),
-        SetTerminalId => go!(
-            sequences::SetTerminalId,
-            packets::SetTerminalId {
-                password: p.password as usize,
-                terminal_id: Some(p.terminal_id as usize),
-            }
-        ),
-        ResetTerminal => go!(sequences::ResetTerminal, packets::ResetTerminal {}),
-        Diagnosis => go!(
-            sequences::Diagnosis,
-            packets::Diagnosis {
-                tlv: Some(packets::tlv::Diagnosis {
-                    diagnosis_type: Some(p.byte % 5 + 1)
-                })
-            }
-        ),
-        EndOfDay => go!(
-            sequences::EndOfDay,
-            packets::EndOfDay {
-                password: p.password as usize
-            }
-        ),
-        Authorization => go!(
-            sequences::Authorization,
             packets::Authorization {
                 amount: Some(p.amount as usize),
                 currency: Some(p.currency as usize),
                 payment_type: Some(p.byte),
-                tlv: Some(packets::tlv::AuthData {
-                    bmp_data: Some(packets::tlv::Bmp60 {
-                        bmp_prefix: "AC".to_string(),
-                        bmp_data: p.token.clone(),
-                    }),
-                }),
+                tlv,
                 expiry_date: p.opt.as_ref().and_then(|o| o.expiry).map(|v| v as usize),
                 timeout: p.opt.as_ref().and_then(|o| o.timeout),
                 maximum_no_of_status_info: p.opt.as_ref().and_then(|o| o.max_status),
@@ -795,15 +805,19 @@ pub async fn drive(
                 zvt_card_type: p.opt.as_ref().and_then(|o| o.card_type),
                 ..packets::Authorization::default()
             }
-        ),
-        Reservation => go!(
-            sequences::Reservation,
+        }),
+        Reservation => go!(sequences::Reservation, {
+            let dec: packets::Reservation = from_ref(id, p);
+            let mut tlv = dec.tlv;
+            if let Some(t) = tlv.as_mut() {
+                bmp60(&mut t.bmp_data);
+            }
             packets::Reservation {
                 amount: Some(p.amount as usize),
                 currency: Some(p.currency as usize),
                 payment_type: Some(p.byte),
                 trace_number: Some((p.terminal_id % 1_000_000) as usize),
-                tlv: bmp(),
+                tlv,
                 expiry_date: p.opt.as_ref().and_then(|o| o.expiry).map(|v| v as usize),
                 timeout: p.opt.as_ref().and_then(|o| o.timeout),
                 maximum_no_of_status_info: p.opt.as_ref().and_then(|o| o.max_status),
@@ -812,68 +826,60 @@ pub async fn drive(
                 zvt_card_type: p.opt.as_ref().and_then(|o| o.card_type),
                 ..packets::Reservation::default()
             }
-        ),
-        PartialReversal => go!(
-            sequences::PartialReversal,
+        }),
+        PartialReversal => go!(sequences::PartialReversal, {
+            let dec: packets::PartialReversal = from_ref(id, p);
+            let mut tlv = dec.tlv;
+            if let Some(t) = tlv.as_mut() {
+                bmp60(&mut t.bmp_data);
+            }
             packets::PartialReversal {
                 receipt_no: Some(p.receipt as usize),
                 amount: Some(p.amount as usize),
                 payment_type: Some(p.byte),
                 currency: Some(p.currency as usize),
-                tlv: bmp(),
+                tlv,
                 ..packets::PartialReversal::default()
             }
-        ),
-        PreAuthReversal => go!(
-            sequences::PreAuthReversal,
-            packets::PreAuthReversal {
-                payment_type: Some(p.byte),
-                currency: Some(p.currency as usize),
-                receipt_no: Some(p.receipt as usize),
-            }
-        ),
-        PrintSystemConfiguration => go!(
-            sequences::PrintSystemConfiguration,
-            packets::PrintSystemConfiguration {}
-        ),
+        }),
+        PreAuthReversal => go!(sequences::PreAuthReversal, {
+            let mut v: packets::PreAuthReversal = from_ref(id, p);
+            v.payment_type = Some(p.byte);
+            v.currency = Some(p.currency as usize);
+            v.receipt_no = Some(p.receipt as usize);
+            v
+        }),
+        PrintSystemConfiguration => go!(sequences::PrintSystemConfiguration, from_ref::<packets::PrintSystemConfiguration>(id, p)),
         SelectLanguage => go!(sequences::SelectLanguage, select_language(p.byte)),
-        StatusEnquiry => go!(
-            sequences::StatusEnquiry,
-            packets::StatusEnquiry {
-                password: Some(p.password as usize),
-                service_byte: Some(p.byte),
-                tlv: None,
+        StatusEnquiry => go!(sequences::StatusEnquiry, {
+            let mut v: packets::StatusEnquiry = from_ref(id, p);
+            v.password = Some(p.password as usize);
+            v.service_byte = Some(p.byte);
+            v.tlv = None;
+            v
+        }),
+        GetSystemInfo => go!(feig::sequences::GetSystemInfo, {
+            let mut v: feig::packets::CVendFunctions = from_ref(id, p);
+            v.password = None;
+            v.instr = 1;
+            v
+        }),
+        FactoryReset => go!(feig::sequences::FactoryReset, {
+            let mut v: feig::packets::CVendFunctions = from_ref(id, p);
+            v.password = Some(p.password as usize);
+            v.instr = 0x0255;
+            v
+        }),
+        ChangeHostConfiguration => go!(feig::sequences::ChangeHostConfiguration, {
+            let mut v: feig::packets::ChangeConfiguration = from_ref(id, p);
+            v.tlv.system_information.password = p.password as usize;
+            if let Some(h) = v.tlv.system_information.host_configuration_data.as_mut() {
+                h.ip = p.ip;
+                h.port = p.port;
+                h.config_byte = p.byte;
             }
-        ),
-        GetSystemInfo => go!(
-            feig::sequences::GetSystemInfo,
-            feig::packets::CVendFunctions {
-                password: None,
-                instr: 1
-            }
-        ),
-        FactoryReset => go!(
-            feig::sequences::FactoryReset,
-            feig::packets::CVendFunctions {
-                password: Some(p.password as usize),
-                instr: 0x0255
-            }
-        ),
-        ChangeHostConfiguration => go!(
-            feig::sequences::ChangeHostConfiguration,
-            feig::packets::ChangeConfiguration {
-                tlv: feig::packets::tlv::ChangeConfiguration {
-                    system_information: feig::packets::tlv::SystemInformation {
-                        password: p.password as usize,
-                        host_configuration_data: Some(feig::packets::tlv::HostConfigurationData {
-                            ip: p.ip,
-                            port: p.port,
-                            config_byte: p.byte,
-                        }),
-                    },
-                },
-            }
-        ),
+            v
+        }),
     }
 }
 
